@@ -204,3 +204,44 @@ def apply_predicates(fnode):
     new.body = [tr.visit(s) for s in new.body]
     ast.fix_missing_locations(new)
     return new
+
+
+class _Drops(ast.NodeTransformer):
+    """`X.pop(k, None)` as a statement  ->  `if k in X: del X[k]`;  `X.pop(k)` as a statement  ->  `del X[k]`  (X an access path, k a path or constant)."""
+    n = 0
+
+    def visit_Expr(self, st):
+        c = st.value
+        if isinstance(c, ast.Call) and isinstance(c.func, ast.Attribute) and c.func.attr == 'pop' and not c.keywords and len(c.args) in (1, 2) \
+                and _path(c.func.value) and not isinstance(c.func.value, ast.Name) and (_path(c.args[0]) or isinstance(c.args[0], ast.Constant)) \
+                and not (isinstance(c.args[0], ast.Constant) and isinstance(c.args[0].value, int)):
+            if len(c.args) == 2 and not (isinstance(c.args[1], ast.Constant) and c.args[1].value is None):
+                return st
+            target = ast.Subscript(value=clone(c.func.value), slice=clone(c.args[0]), ctx=ast.Del())
+            d = ast.copy_location(ast.Delete(targets=[target]), st)
+            self.n += 1
+            if len(c.args) == 1:
+                return d
+            test = ast.Compare(left=clone(c.args[0]), ops=[ast.In()], comparators=[clone(c.func.value)])
+            return ast.copy_location(ast.If(test=test, body=[d], orelse=[]), st)
+        return st
+
+    def visit_FunctionDef(self, n):
+        return n
+
+    visit_AsyncFunctionDef = visit_FunctionDef
+    visit_Lambda = visit_FunctionDef
+    visit_ClassDef = visit_FunctionDef
+
+
+def apply_drops(fnode):
+    if not any(isinstance(w, ast.Expr) and isinstance(w.value, ast.Call) and isinstance(w.value.func, ast.Attribute) and w.value.func.attr == 'pop'
+               for w in walk_no_defs(fnode)):
+        return None
+    new = clone(fnode)
+    tr = _Drops()
+    new.body = [tr.visit(s) for s in new.body]
+    if not tr.n:
+        return None
+    ast.fix_missing_locations(new)
+    return new
